@@ -1,4 +1,5 @@
 """C13: a proof outline cannot make an unjustified claim available as an axiom."""
+import json
 import re
 
 import vcheck as V
@@ -18,6 +19,11 @@ OUTLINE_HAND = [
     "definition[e1]: forall X (d1(X) <-> q(X) and not d2(X)). definition[e2]: forall X (d2(X) <-> d1(X) or not q(X)). lemma[e3]: forall X (not q(X)).",
     "definition[e1]: forall X (aux_p(X) <-> q(X)). lemma[e2]: forall X (aux_p(X) -> q(X)).",
     "definition[e1]: forall X (aux(X) <-> q(X)).", "definition[e1]: forall X (r(X) <-> q(X)).",
+    # lemmas that are not universally quantified implications; definitions whose quantifier list and argument list differ
+    "lemma[e1]: exists X (p(X) and q(X)) or not exists X p(X). lemma[e2]: forall X (p(X) -> q(X)).",
+    "lemma(forward)[e1]: exists X (q(X) and X > 0) or forall X (q(X) -> not p(X)). lemma[e2]: (forall X (p(X) -> q(X))) and (exists X q(X) or not exists X p(X)).",
+    "definition[e1]: forall X Y (d1(X) <-> t(X, Y)). lemma[e2]: forall X (d1(X) -> d1(X)).", "definition[e1]: forall X Y (d1(X) <-> q(X) and q(Y)).",
+    "definition[e1]: forall X (d1(X, X) <-> q(X)).", "definition[e1]: forall X Y (d1(Y, X) <-> q(X) and Y = X). lemma[e2]: forall X (d1(X, X) <-> q(X)).",
     "inductive-lemma[e1]: forall N$i (N$i >= 0 -> forall X (X = N$i + 1 and q(X) -> p(X))). inductive-lemma[e2]: forall N$i (N$i >= 0 -> (exists N$i q(N$i)) or p(N$i) or not q(N$i)).",
 ]
 
@@ -59,12 +65,24 @@ def run_C13(ctx):
         names = [e["name"] for e in r["po"]]
         if len(set(names)) != len(names):
             continue
-        obs, induction = [], []
+        obs, induction, est = [], [], []
         for fm in r["families"]:
             if "panic" in fm:
                 violations.append({"check": "C13.panic", "text": r["text"], "detail": f"anthem panicked: {fm['panic']}", "record": {"task": r["text"]}})
                 fm["error"] = "panic: " + fm["panic"]
             ps, ind = [], []
+            plain = {e["name"] for e in r["po"] if e["role"] == "lemma"}
+            uses, conjs, seen_use = [], [], set()
+            for k, p in enumerate(fm.get("problems", []), start=1):
+                fwd = p["name"].startswith("forward")
+                for f in p["formulas"]:
+                    nm = strip(f["name"])
+                    if nm in plain and f["conj"]:
+                        conjs.append({"k": k, "fwd": fwd, "f": f["f"]})
+                    elif nm in plain and (nm, fwd, json.dumps(f["f"], sort_keys=True)) not in seen_use:
+                        seen_use.add((nm, fwd, json.dumps(f["f"], sort_keys=True)))
+                        uses.append({"k": k, "fwd": fwd, "name": nm, "f": f["f"]})
+            est.append({"uses": uses, "conjs": conjs})
             for p in fm.get("problems", []):
                 ax = [strip(f["name"]) for f in p["formulas"] if not f["conj"]]
                 cj = [strip(f["name"]) for f in p["formulas"] if f["conj"]]
@@ -82,7 +100,8 @@ def run_C13(ctx):
                 refused += 1
         r["obs"] = obs
         r["induction"] = induction
-        trees = [x["f"] for ind in induction for x in ind] + [e["f"] for e in r["po"]]
+        r["est"] = est
+        trees = [x["f"] for ind in induction for x in ind] + [e["f"] for e in r["po"]] + [u["f"] for e in est for u in e["uses"]]
         why, _ = C.formula_cost_params(ctx, r, len(usable), trees, extra_free=1)
         if why is None:
             r["pp"].update({"lo": -1, "hi": 1, "nbs": 1, "ext": False})
